@@ -202,11 +202,11 @@ func (rd *roundData) newKex(seed uint64) (*kexState, error) {
 
 func sound(x *mon.Ctx) {
 	selfTest(x)
-	rounds := x.Scale(4, 40)
+	rounds := x.Scale(3, 40)
 	if x.Variant == "purego" {
 		// the decision logic is the same Go code in both builds; the pure-Go build (3x
-		// slower) sweeps half the rounds
-		rounds = x.Scale(2, 20)
+		// slower) sweeps fewer rounds
+		rounds = x.Scale(1, 16)
 	}
 	for id := 0; id < rounds; id++ {
 		if c := x.Begin("sound round=%d wrong uid / hid / message / key for the signature and the ten ciphertexts", id); c != nil {
